@@ -150,6 +150,7 @@ def build(prop_module: str) -> Build:
     """`lake build` the property module and the driver; collect broken declarations."""
     b = Build()
     with lean_lock():
+        subprocess.run([sys.executable, str(ROOT / "tools" / "gen_driver.py")], check=False)
         rc, log = lake_build([prop_module])
         rc2, log2 = lake_build(["verif-driver"])
     b.log = log + log2
